@@ -46,6 +46,12 @@ def staking(rnd, n, sid="S"):
                     v = rnd.choice(cands)
                     who = rnd.choice([OWNER.get(v, a), a, "a6"])
                     txs.append({"id": nid(), "type": "EditCandidateCommission", "from": who, "args": {"pub": v, "comm": rnd.randint(0, 30)}})
+                elif r < 0.805:
+                    v = rnd.choice(cands)
+                    who = rnd.choice([OWNER.get(v, a), OWNER.get(v, a), a])
+                    txs.append({"id": nid(), "type": "EditCandidatePublicKey", "from": who, "args": {"pub": v, "newPub": rnd.choice(["k" + v, "k" + v, "v1", "kx"])}})
+                    if who == OWNER.get(v):
+                        OWNER["k" + v] = who
                 elif r < 0.83 and len(declared) < 2:
                     name = "n%d" % (len(declared) + 1)
                     txs.append({"id": nid(), "type": "DeclareCandidacy", "from": a, "args": {"address": a, "pub": name, "comm": rnd.randint(0, 100), "coin": "BIP", "stake": "%du" % rnd.choice([10, 1000, 5000])}})
@@ -141,6 +147,20 @@ def targeted():
         sc("edit-candidate-by-%s" % who, [{"op": "block", "txs": [{"id": "t1", "type": "EditCandidate", "from": who, "args": {"pub": "v2", "reward": who, "owner": who, "control": who}}]}, {"op": "skip", "n": 2}])
         sc("switch-by-%s" % who, [{"op": "block", "txs": [{"id": "t1", "type": "SetCandidateOff", "from": who, "args": {"pub": "v2"}}]},
                                   {"op": "block", "txs": [{"id": "t2", "type": "SetCandidateOn", "from": who, "args": {"pub": "v2"}}]}, {"op": "skip", "n": 2}])
+    # a validator's candidate changes its public key at every offset from a payout height (period 6), alone and with accumulated rewards
+    for off in range(0, 6):
+        sc("pubkey-change-h%d" % off, [{"op": "skip", "n": off},
+                                       {"op": "block", "txs": [{"id": "t1", "type": "EditCandidatePublicKey", "from": "o2", "args": {"pub": "v2", "newPub": "kv2"}}]},
+                                       {"op": "skip", "n": 8},
+                                       {"op": "block", "txs": [{"id": "t2", "type": "Delegate", "from": "a1", "args": {"pub": "kv2", "coin": "BIP", "value": "10u"}},
+                                                               {"id": "t3", "type": "Delegate", "from": "a1", "args": {"pub": "v2", "coin": "BIP", "value": "10u"}}]},
+                                       {"op": "skip", "n": 7}])
+    sc("pubkey-change-twice", [{"op": "block", "txs": [{"id": "t1", "type": "EditCandidatePublicKey", "from": "o2", "args": {"pub": "v2", "newPub": "kv2"}},
+                                                       {"id": "t2", "type": "EditCandidatePublicKey", "from": "o3", "args": {"pub": "v3", "newPub": "kv3"}}]},
+                               {"op": "block", "txs": [{"id": "t3", "type": "EditCandidatePublicKey", "from": "o2", "args": {"pub": "kv2", "newPub": "v2"}},
+                                                       {"id": "t4", "type": "EditCandidatePublicKey", "from": "a6", "args": {"pub": "v4", "newPub": "kv4"}},
+                                                       {"id": "t5", "type": "EditCandidatePublicKey", "from": "o4", "args": {"pub": "v4", "newPub": "kv3"}}]},
+                               {"op": "skip", "n": 8}])
     # competing proposals of every vote kind, in both orders of creation (the first vote creates the proposal)
     def vote(kind, v, what):
         args = {"pub": v, "height": "h+2"}
